@@ -175,6 +175,24 @@ class VecInterp(SE.Interp):
                     return v & ((1 << {"u32": 32, "u16": 16, "u8": 8}[ty]) - 1)
         if k == "match" and e0.get("src") == "ForLoopDesugar":
             return self.for_loop(e0, env)
+        if k == "mcall" and e0.get("name") in ("next", "next_back") and not e0.get("args"):
+            # an iterator held in a local and advanced by hand (`while let Some(x) = it.next()`): the local is consumed
+            r0 = H.unwrap(e0["recv"])
+            while H.is_k(r0, "ref") or (H.is_k(r0, "unary") and r0.get("op") == "*"):
+                r0 = H.unwrap(r0["e"])
+            nm = H.local_name(r0)
+            cur = env.get(nm) if nm is not None else None
+            if isinstance(cur, (Vec, View)):
+                cur = ("iter", list(cur.items if isinstance(cur, Vec) else cur.get()))
+            if isinstance(cur, tuple) and cur and cur[0] == "range" and all(isinstance(x, int) for x in cur[1:3]):
+                cur = ("iter", list(range(cur[1], cur[2] + (1 if cur[3] else 0))))
+            if nm is not None and isinstance(cur, tuple) and cur and cur[0] == "iter":
+                xs = list(cur[1])
+                if not xs:
+                    return H.NONE_V
+                x = xs.pop(0) if e0["name"] == "next" else xs.pop()
+                env[nm] = ("iter", xs)
+                return H.some(x)
         if k == "mcall" and e0.get("name") == "into" and not e0.get("callee_local"):
             cands = [fn for fn in self.facts.hir if fn.startswith("<%s as core::convert::From<" % e0.get("ty"))]
             if len(cands) == 1:
@@ -332,6 +350,19 @@ class VecInterp(SE.Interp):
             return H.some(args[0]) if recv else H.NONE_V
         if isinstance(recv, bool) and name == "then" and len(args) == 1:
             return H.some(self.call_closure(args[0], [])) if recv else H.NONE_V
+        if isinstance(recv, (Vec, View)) and name in ("split_inclusive", "split") and len(args) == 1:
+            vec, lo, hi = (recv, 0, len(recv.items)) if isinstance(recv, Vec) else (recv.vec, recv.lo, recv.hi)
+            groups, start = [], lo
+            for i in range(lo, hi):
+                r = self.call_closure(args[0], [vec.items[i]])
+                if not isinstance(r, bool):
+                    raise H.Unsupported("%s predicate gives %r" % (name, r))
+                if r:
+                    groups.append(View(vec, start, i + 1 if name == "split_inclusive" else i))
+                    start = i + 1
+            if start < hi or name == "split":
+                groups.append(View(vec, start, hi))
+            return ("iter", groups)
         # ---- finite iterator algebra: an iterator over a vector / slice / range is the list of its items ----------
         if isinstance(recv, (Vec, View)) and name in ("iter", "into_iter"):
             return ("iter", list(recv.items if isinstance(recv, Vec) else recv.get()))
@@ -354,6 +385,17 @@ class VecInterp(SE.Interp):
                 return ("iter", list(reversed(xs)))
             if name == "map":
                 return ("iter", [self.call_closure(args[0], [x]) for x in xs])
+            if name == "flat_map":
+                out = []
+                for x in xs:
+                    r = self.call_closure(args[0], [x])
+                    if isinstance(r, tuple) and r and r[0] == "iter":
+                        out.extend(r[1])
+                    elif isinstance(r, (Vec, View)):
+                        out.extend(r.items if isinstance(r, Vec) else r.get())
+                    else:
+                        raise H.Unsupported("flat_map closure gives %r" % (r,))
+                return ("iter", out)
             if name == "filter":
                 return ("iter", [x for x in xs if self.call_closure(args[0], [x]) is True])
             if name == "filter_map":
@@ -513,6 +555,26 @@ class VecInterp(SE.Interp):
                     raise H.Unsupported("extend with %r" % (it,))
                 if name == "truncate":
                     del recv.items[args[0]:]
+                    return ("t", ())
+                if name == "retain" and len(args) == 1:
+                    keep = []
+                    for x in list(recv.items):
+                        r = self.call_closure(args[0], [x])
+                        if not isinstance(r, bool):
+                            raise H.Unsupported("retain predicate gives %r" % (r,))
+                        if r:
+                            keep.append(x)
+                    recv.items[:] = keep
+                    return ("t", ())
+                if name == "dedup" and not args:
+                    out = []
+                    for x in recv.items:
+                        if not out or out[-1] != x:
+                            out.append(x)
+                    recv.items[:] = out
+                    return ("t", ())
+                if name == "sort" and not args and all(isinstance(x, int) for x in recv.items):
+                    recv.items.sort()
                     return ("t", ())
                 if name == "splice" and isinstance(args[0], tuple) and args[0][0] == "range" and isinstance(args[1], tuple) and args[1][0] == "take":
                     lo, hi = args[0][1], args[0][2] + (1 if args[0][3] else 0)
@@ -904,7 +966,7 @@ def buffer_edit_primitives(ctx, w, S, R, rule, spec=True):
                             out[row][0][col] = "NEW"
                             return out
                         run("print", "print/" + geo, cols, rows, (col, row), [NEW], wp, "print at %s" % geo)
-                    for n in range(0, cols + 2):
+                    for n in list(range(0, cols + 2)) + [65535]:
                         m = min(n, cols - col)
 
                         def wi(names, col=col, row=row, m=m, cols=cols):
@@ -1186,6 +1248,20 @@ def scroll_ok(w, S):
         except Exception:
             c = False
         w.facts._scroll_ok = c
+    return c
+
+
+def edits_ok(w, S, R):
+    """Silent verdict of the buffer-level insert / delete / erase / print specification (cached per fact set)."""
+    c = getattr(w.facts, "_edits_ok", None)
+    if c is None:
+        sink = _Sink()
+        try:
+            buffer_edit_primitives(sink, w, S, R, "_", spec=True)
+            c = sink.bad == 0 and sink.rule_counts.get("_", 0) >= 1000
+        except Exception:
+            c = False
+        w.facts._edits_ok = c
     return c
 
 
